@@ -40,11 +40,7 @@ theorem C02_counterexample_D7 :
     ∃ (W : World) (F : Family) (m : Member) (q : T),
       memberOK F m = true ∧ applies W m.blk q ∧ ¬ genSel W F m q := by
   refine ⟨D7.W, D7.F, D7.m, D7.bx D7.str, by decide, ?_, ?_⟩
-  · refine ⟨[("p", .ty D7.str)], ?_, by decide, ?_, ?_⟩
-    · intro n e h
-      by_cases hn : "p" = n
-      · simp [lookup, hn] at h
-      · simp [lookup, hn] at h
+  · refine ⟨[("p", .ty D7.str)], by decide, by decide, ?_, ?_⟩
     · intro c hc
       have hc' : c = ⟨D7.bx (.tparam "p"), D7.d, [("G", D7.ga)]⟩ := by
         simpa [D7.m, D7.blk] using hc
@@ -69,5 +65,118 @@ theorem C02_counterexample_D7 :
     rw [this] at hp
     revert hp
     decide
+
+namespace ConstHdr
+def u8 : T := .node "u8" [] []
+def lit3 : T := .node "Expr::Lit" ["3"] []
+def d : T := .node "D" [] []
+def ga : T := .node "GA" [] []
+def vec (t : T) : T := .node "Vec" [] [.node "GenericArgument::Type" [] [t]]
+def gid (self : T) : T := .node "ImplGroupId" [] [.node "None" [] [], self]
+/-- `[elem; len]` -/
+def arr (elem len : T) : T := .node "Type::Array" [] [elem, len]
+/-- `Wr<a, b>` with both arguments printed as types (a bare const argument is) -/
+def wr (a b : T) : T := .node "Wr" [] [.node "GenericArgument::Type" [] [a], .node "GenericArgument::Type" [] [b]]
+
+/-- every type is `Sized`; `D` is implemented for `u8` and `Vec<u8>` with `G = GA` -/
+def W : World := ⟨fun tr ty => if tr = d ∧ (ty = u8 ∨ ty = vec u8) then some [("G", ga)] else none, fun _ => true⟩
+
+/-- `impl<const N: usize, T: D<G = GA>> Kita for [T; N]` (`T` = `_ŠČ0`, `N` = `_ŠČ1`): the header has an expression
+    parameter -/
+def hdrA : T := gid (arr (.tparam "_ŠČ0") (.eparam "_ŠČ1"))
+def keyA : Key := ⟨.tparam "_ŠČ0", d, "G"⟩
+def blkA : Block := ⟨hdrA, [⟨.tparam "_ŠČ0", d, [("G", ga)]⟩], ["_ŠČ0"]⟩
+def mA : Member := ⟨blkA, [("_ŠČ0", .identity), ("_ŠČ1", .identity)], [some ga]⟩
+/-- a second, nested member `impl<const N: usize, T> Kita for [Vec<T>; N] where Vec<T>: D<G = GA>` -/
+def blkA' : Block := ⟨gid (arr (vec (.tparam "_ŠČ0")) (.eparam "_ŠČ1")), [⟨vec (.tparam "_ŠČ0"), d, [("G", ga)]⟩], ["_ŠČ0"]⟩
+def mA' : Member := ⟨blkA', [("_ŠČ0", .ty (vec (.tparam "_ŠČ0"))), ("_ŠČ1", .identity)], [some ga]⟩
+def FA : Family := ⟨hdrA, [keyA], ["_ŠČ0"], [mA, mA']⟩
+
+/-- `impl<const N: usize, T: D<G = GA>> Wr<N, T>`: the const argument is bare, printed like a type argument -/
+def hdrB : T := gid (wr (.tparam "_ŠČ1") (.tparam "_ŠČ0"))
+def blkB : Block := ⟨hdrB, [⟨.tparam "_ŠČ0", d, [("G", ga)]⟩], ["_ŠČ0"]⟩
+def mB : Member := ⟨blkB, [("_ŠČ0", .identity), ("_ŠČ1", .identity)], [some ga]⟩
+def FB : Family := ⟨hdrB, [keyA], ["_ŠČ0"], [mB]⟩
+
+/-- `T := u8`, `N := 3` -/
+def ρ : Subst := [("_ŠČ0", .ty u8), ("_ŠČ1", .ex lit3)]
+
+theorem worldTotal (F : Family) (hF : F.keys = [keyA]) : WorldTotal W F := by
+  intro k hk tr ty bs h
+  rw [hF] at hk
+  simp only [List.mem_singleton] at hk
+  subst hk
+  simp only [W] at h
+  split at h
+  · cases h; exact ⟨ga, rfl⟩
+  · cases h
+
+theorem sizedCompat (F : Family) (m : Member) : SizedCompat W F m := fun _ _ _ _ _ => rfl
+end ConstHdr
+
+open ConstHdr in
+/-- the decidable hypotheses of the refinement hold for families whose header has a const parameter, in expression
+    position (`[T; N]`, two members, one nested) and in the ambiguous generic-argument position (`Wr<N, T>`) -/
+theorem C02_const_header_hypotheses :
+    (memberOK FA mA = true ∧ thetaCoversB FA mA = true ∧ memberOK FA mA' = true ∧ thetaCoversB FA mA' = true ∧
+      keysOverHeaderB FA = true) ∧
+    (memberOK FB mB = true ∧ thetaCoversB FB mB = true ∧ keysOverHeaderB FB = true) := by
+  decide
+
+open ConstHdr in
+/-- … and the refinement theorem is instantiated there: the block `impl<const N: usize, T: D<G = GA>> Kita for [T; N]`
+    applies to the query `[u8; 3]` by a substitution that binds the const parameter, hence the generated program
+    selects it; the nested member `[Vec<T>; N]` is selected for `[Vec<u8>; 3]`; `Wr<N, T>` for `Wr<3, u8>` (a
+    `GenericArgument::Const`). No substitution without const bindings produces these queries. -/
+theorem C02_const_header_selected :
+    (genSel W FA mA (gid (arr u8 lit3)) ↔ applies W blkA (gid (arr u8 lit3))) ∧ genSel W FA mA (gid (arr u8 lit3)) ∧
+    genSel W FA mA' (gid (arr (vec u8) lit3)) ∧
+    genSel W FB mB (gid (.node "Wr" [] [.node "GenericArgument::Const" [] [lit3], .node "GenericArgument::Type" [] [u8]])) ∧
+    ¬ ∃ σ, noEx σ ∧ inst σ hdrA = gid (arr u8 lit3) := by
+  have hyp := C02_const_header_hypotheses
+  have hA := C02_member_selected_iff_applies W FA mA (gid (arr u8 lit3)) hyp.1.1 (worldTotal FA rfl)
+    ((thetaCoversB_iff FA mA).1 hyp.1.2.1) (sizedCompat FA mA)
+  have hA' := C02_member_selected_iff_applies W FA mA' (gid (arr (vec u8) lit3)) hyp.1.2.2.1 (worldTotal FA rfl)
+    ((thetaCoversB_iff FA mA').1 hyp.1.2.2.2.1) (sizedCompat FA mA')
+  have hB := C02_member_selected_iff_applies W FB mB
+    (gid (.node "Wr" [] [.node "GenericArgument::Const" [] [lit3], .node "GenericArgument::Type" [] [u8]]))
+    hyp.2.1 (worldTotal FB rfl) ((thetaCoversB_iff FB mB).1 hyp.2.2.1) (sizedCompat FB mB)
+  have clause : ∀ (b : T) (hb : inst ρ b = u8 ∨ inst ρ b = vec u8) (c : Clause), c = ⟨b, d, [("G", ga)]⟩ → holds W ρ c := by
+    intro b hb c hc
+    subst hc
+    refine ⟨[("G", ga)], ?_, ?_⟩
+    · show W.disp (inst ρ d) (inst ρ b) = _
+      have : inst ρ d = d := by decide
+      rw [this]
+      show (if d = d ∧ (inst ρ b = u8 ∨ inst ρ b = vec u8) then some [("G", ga)] else none) = _
+      rw [if_pos ⟨rfl, hb⟩]
+    · intro a p hap
+      simp only [List.mem_singleton, Prod.mk.injEq] at hap
+      obtain ⟨rfl, rfl⟩ := hap
+      decide
+  refine ⟨hA, hA.2 ?_, hA'.2 ?_, hB.2 ?_, ?_⟩
+  · refine ⟨ρ, by decide, by decide, ?_, fun _ _ => rfl⟩
+    intro c hc
+    exact clause (.tparam "_ŠČ0") (Or.inl (by decide)) c (by simpa [mA, blkA] using hc)
+  · refine ⟨ρ, by decide, by decide, ?_, fun _ _ => rfl⟩
+    intro c hc
+    exact clause (vec (.tparam "_ŠČ0")) (Or.inr (by decide)) c (by simpa [mA', blkA'] using hc)
+  · refine ⟨ρ, by decide, by decide, ?_, fun _ _ => rfl⟩
+    intro c hc
+    exact clause (.tparam "_ŠČ0") (Or.inl (by decide)) c (by simpa [mB, blkB] using hc)
+  · rintro ⟨σ, hσ, h⟩
+    simp only [hdrA, gid, arr] at h
+    rw [inst_node σ hσ] at h
+    simp only [instL] at h
+    injection h with _ _ h
+    injection h with _ h
+    injection h with h _
+    rw [inst_node σ hσ] at h
+    simp only [instL] at h
+    injection h with _ _ h
+    injection h with _ h
+    injection h with h _
+    rw [instEp_notEx (hσ "_ŠČ1")] at h
+    cases h
 
 end DI
